@@ -1,6 +1,6 @@
 #!/venv/bin/python
 """Robustness sweep: every seeded change whose detection so far relied on generated (seed-dependent) sub-checks
-only is run again at another seed.  usage: tools/sweep.py SEED [NAME ...]  -> prints the changes NOT flagged."""
+only is run again at another seed (shrinking switched off: only the verdict matters here).  usage: tools/sweep.py SEED [NAME ...]  -> prints the changes NOT flagged."""
 import glob
 import importlib
 import json
@@ -43,7 +43,7 @@ for mp in sorted(glob.glob(os.path.join(VERIF, "seeded", "C??-?", "meta.json")))
         cmd = [os.path.join(VERIF, "check"), pid, "--tier", "quick"]
         for s in subs:
             cmd += ["--only", s]
-        p = subprocess.run(cmd, env=dict(os.environ, VF_REPO=wt, VERIF_SEED=seed), capture_output=True, text=True)
+        p = subprocess.run(cmd, env=dict(os.environ, VF_REPO=wt, VERIF_SEED=seed, VF_NO_SHRINK="1"), capture_output=True, text=True)
         print(name, "rc=%d" % p.returncode, ",".join(subs), flush=True)
         if p.returncode != 1:
             missed.append(name)
